@@ -100,6 +100,72 @@ Theorem C20_syn_probe_knocks : forall st ackok p,
   knocks_of_probe st ackok p = [mkKnock KTcp (src_mac (p_src p)) dst_mac (src_ip (p_src p)) dst_ip (p_port p)].
 Proof. exact syn_probe_knocks. Qed.
 
+(* ---------------------------------------------------------------- from the frame to the knock *)
+(* rx_frame = ethernet.Parse, ipv4.Parse, udp.Unmarshal / icmp.Parse / tcp.UnmarshalWithChecksum
+   and the guards of the three handlers, byte by byte.  Frames are given by their fields; every
+   field not mentioned in a hypothesis is arbitrary. *)
+
+(* every ICMP message of >= 8 bytes (8 = echo request without data), any type/code, to one of
+   our addresses is a knock carrying exactly the frame's MAC and IP addresses *)
+Theorem C20_icmp_frame_knocks :
+  forall me tb d0 d1 d2 d3 d4 d5 m0 m1 m2 m3 m4 m5
+         v tos tl1 tl0 id1 id0 fr1 fr0 ttl ck1 ck0 s0 s1 s2 s3 t0 t1 t2 t3 msg trail,
+  ((v mod 16) * 4 <= 20 + blen msg)%N ->
+  (8 <= blen msg)%N -> (tl1 * 256 + tl0 = 20 + blen msg)%N ->
+  In (v32 t0 t1 t2 t3) me ->
+  rx_frame me tb (eth_hdr [d0; d1; d2; d3; d4; d5] [m0; m1; m2; m3; m4; m5] ++
+                  ip_hdr v tos tl1 tl0 id1 id0 fr1 fr0 ttl 1 ck1 ck0 [s0; s1; s2; s3] [t0; t1; t2; t3] ++
+                  msg ++ trail)
+  = (FKnock (mkKnock KIcmp (v48 m0 m1 m2 m3 m4 m5) (v48 d0 d1 d2 d3 d4 d5)
+                     (v32 s0 s1 s2 s3) (v32 t0 t1 t2 t3) 0), tb).
+Proof. exact icmp_frame_knocks. Qed.
+
+(* every UDP datagram with consistent lengths to a port without decoder is a knock with exactly
+   the frame's addresses and DESTINATION port - for every source port, checksum and payload *)
+Theorem C20_udp_frame_knocks :
+  forall me tb d0 d1 d2 d3 d4 d5 m0 m1 m2 m3 m4 m5
+         v tos tl1 tl0 id1 id0 fr1 fr0 ttl ck1 ck0 s0 s1 s2 s3 t0 t1 t2 t3
+         sp1 sp0 dp1 dp0 ul1 ul0 uc1 uc0 payload trail,
+  ((v mod 16) * 4 <= 28 + blen payload)%N ->
+  (tl1 * 256 + tl0 = 28 + blen payload)%N -> (ul1 * 256 + ul0 = 8 + blen payload)%N ->
+  In (v32 t0 t1 t2 t3) me ->
+  ~ In (dp1 * 256 + dp0)%N udp_decoder_ports ->
+  rx_frame me tb (eth_hdr [d0; d1; d2; d3; d4; d5] [m0; m1; m2; m3; m4; m5] ++
+                  ip_hdr v tos tl1 tl0 id1 id0 fr1 fr0 ttl 17 ck1 ck0 [s0; s1; s2; s3] [t0; t1; t2; t3] ++
+                  ([sp1; sp0; dp1; dp0; ul1; ul0; uc1; uc0] ++ payload) ++ trail)
+  = (FKnock (mkKnock KUdp (v48 m0 m1 m2 m3 m4 m5) (v48 d0 d1 d2 d3 d4 d5)
+                     (v32 s0 s1 s2 s3) (v32 t0 t1 t2 t3) (dp1 * 256 + dp0)%N), tb).
+Proof. exact udp_frame_knocks. Qed.
+
+(* every TCP segment without options carrying SYN and not ACK, neither port 22, is a knock with
+   the frame's addresses and destination port - for every other flag, sequence number,
+   checksum (valid or not), payload, and whatever records the state table holds *)
+Theorem C20_tcp_syn_frame_knocks :
+  forall me tb d0 d1 d2 d3 d4 d5 m0 m1 m2 m3 m4 m5
+         v tos tl1 tl0 id1 id0 fr1 fr0 ttl ck1 ck0 s0 s1 s2 s3 t0 t1 t2 t3
+         sp1 sp0 dp1 dp0 q0 q1 q2 q3 a0 a1 a2 a3 off fl w1 w0 c1 c0 u1 u0 payload trail,
+  ((v mod 16) * 4 <= 40 + blen payload)%N ->
+  (tl1 * 256 + tl0 = 40 + blen payload)%N ->
+  (off / 16 = 5)%N -> flag (fl mod 64) 1 = true -> flag (fl mod 64) 4 = false ->
+  (sp1 * 256 + sp0 <> 22)%N -> (dp1 * 256 + dp0 <> 22)%N ->
+  In (v32 t0 t1 t2 t3) me ->
+  rx_frame me tb (eth_hdr [d0; d1; d2; d3; d4; d5] [m0; m1; m2; m3; m4; m5] ++
+                  ip_hdr v tos tl1 tl0 id1 id0 fr1 fr0 ttl 6 ck1 ck0 [s0; s1; s2; s3] [t0; t1; t2; t3] ++
+                  ([sp1; sp0; dp1; dp0; q0; q1; q2; q3; a0; a1; a2; a3; off; fl; w1; w0; c1; c0; u1; u0]
+                   ++ payload) ++ trail)
+  = (FKnock (mkKnock KTcp (v48 m0 m1 m2 m3 m4 m5) (v48 d0 d1 d2 d3 d4 d5)
+                     (v32 s0 s1 s2 s3) (v32 t0 t1 t2 t3) (dp1 * 256 + dp0)%N),
+     tb ++ [((v32 s0 s1 s2 s3, v32 t0 t1 t2 t3, sp1 * 256 + sp0, dp1 * 256 + dp0)%N, SSynReceived)]).
+Proof. exact tcp_syn_frame_knocks. Qed.
+
+(* conversely, for EVERY byte string and state table: a knock is queued only for an IPv4 frame
+   whose total length covers the transport header and lies inside the frame, addressed to us;
+   its fields are the bytes at the fixed offsets (MACs 6/0, addresses 26/30, destination port
+   36); UDP: length field consistent, port without decoder; TCP: SYN set, neither port 22 *)
+Theorem C20_frame_knock_sound : forall me tb f k tb',
+  rx_frame me tb f = (FKnock k, tb') -> frame_fields_ok me f k.
+Proof. exact rx_frame_sound. Qed.
+
 (* ---------------------------------------------------------------- non-vacuity / former witnesses *)
 
 (* three sources at once (reported as 1, 3, 3 and 2 a tick late before the repair) *)
@@ -131,3 +197,7 @@ Print Assumptions C20_tick_reports_due_groups_once.
 Print Assumptions C20_idle_ticks_report_nothing.
 Print Assumptions C20_tcp_knock_iff.
 Print Assumptions C20_syn_probe_knocks.
+Print Assumptions C20_icmp_frame_knocks.
+Print Assumptions C20_udp_frame_knocks.
+Print Assumptions C20_tcp_syn_frame_knocks.
+Print Assumptions C20_frame_knock_sound.
